@@ -10,6 +10,8 @@ cd "$(dirname "$0")"
 VERIF="$(pwd)"
 export GOFLAGS=-mod=mod GOPROXY=off GOSUMDB=off GOTOOLCHAIN=local
 export CARGO_NET_OFFLINE=true PIP_NO_INDEX=1
+# the monitors allocate many short-lived strings on all cores; a lazier GC cuts wall time 2-3x
+export GOGC="${GOGC:-800}"
 REPO="${VERIF_REPO:-/repo}"
 
 BIN="$(mktemp -d "${TMPDIR:-/tmp}/vmon.XXXXXX")"
